@@ -73,6 +73,11 @@ def run_case(idx, rng, tier, ctx):
     from loki import Sourcefile
     flags = case_flags(rng, idx)
     case = ProgGen(rng, flags).generate()
+    if idx % 8 == 5:
+        # long PRINT statements with hostile character literals (quotes of both kinds, blanks, '&', '!')
+        from vlib.checks.c04 import hostile_inserts
+        case.units, feats = hostile_inserts(case.units, rng)
+        case.features |= {'long_print_literals'}
     res = {'sig': sighash(case.units), 'nontrivial': False, 'violations': [], 'inconclusive': None,
            'features': sorted(case.features), 'counters': {}}
     try:
